@@ -307,6 +307,87 @@ pub fn run(tier: Tier) -> i32 {
             report.violation(v);
         }
     }
+    // ------------------------------------------------------------------ capitalised misspellings of
+    // entries with inner capitals (JavaScript, McDonald's, NASA): whatever is suggested must be a
+    // dictionary word as listed; and non-words so far from everything that nothing is suggested,
+    // occurring twice in one document and again in a second document on the same linter
+    {
+        let mut cases: Vec<String> = vec![];
+        for w in words.iter().filter(|w| classify(w) == WordClass::Lexical && w.len() >= 4 && w[1..].iter().any(|c| c.is_uppercase())).take(tier.pick(1500, 100000)) {
+            let mut rest_low: Vec<char> = vec![w[0]];
+            rest_low.extend(w[1..].iter().flat_map(|c| c.to_lowercase()));
+            cases.push(c2s(&rest_low));
+            for d in 1..w.len() {
+                let mut v = w.clone();
+                v.remove(d);
+                cases.push(c2s(&v));
+                let mut v2 = rest_low.clone();
+                if d < v2.len() {
+                    v2.remove(d);
+                    cases.push(c2s(&v2));
+                }
+            }
+        }
+        cases.sort();
+        cases.dedup();
+        let nc = cases.len() as u64;
+        let res = par_chunks(nc, 200, ncpu(), |s, e| {
+            let mut group = spell_only(Dialect::American, dict.clone());
+            let mut viols: Vec<Violation> = vec![];
+            let mut evals = 0u64;
+            for i in s..e {
+                let w = &cases[i as usize];
+                evals += 1;
+                let text = format!("The {w} is");
+                let Ok(lints) = catch(|| {
+                    let doc = Document::new_plain_english(&text, &*dict);
+                    group.lint(&doc)
+                }) else {
+                    group = spell_only(Dialect::American, dict.clone());
+                    continue;
+                };
+                for l in spelling_lints_on(&lints, 4, 4 + w.chars().count()) {
+                    if let Some((sig, detail)) = check_suggestions(l, &dict, Dialect::American) {
+                        if viols.len() < 6 {
+                            viols.push(Violation { sig: format!("capitalised-misspelling:{sig}"), case: json!({"engine":"E1","text": text, "word": w}), detail });
+                        }
+                    }
+                }
+            }
+            (evals, viols)
+        });
+        for (e, vs) in res {
+            report.add("evaluations", e);
+            report.add("capitalised_misspelling_cases", e);
+            for v in vs {
+                report.violation(v);
+            }
+        }
+        // far-away non-words, twice
+        let far = ["Donaudampfschifffahrt", "qzxvkwpjq", "Xkqzzvvwpq", "zzqxjkvwpqrstlmn"];
+        let mut group = spell_only(Dialect::American, dict.clone());
+        for w in far {
+            if dict.contains_word_str(w) {
+                continue;
+            }
+            let n = w.chars().count();
+            let text = format!("The {w} and the {w} again.");
+            for round in 0..2 {
+                report.add("evaluations", 1);
+                let Ok(lints) = catch(|| {
+                    let doc = Document::new_plain_english(&text, &*dict);
+                    group.lint(&doc)
+                }) else { continue };
+                let a = spelling_lints_on(&lints, 4, 4 + n);
+                let b = spelling_lints_on(&lints, 4 + n + 9, 4 + n + 9 + n);
+                let ok = a.len() == 1 && b.len() == 1 && (a[0].span.start, a[0].span.end) == (4, 4 + n) && (b[0].span.start, b[0].span.end) == (4 + n + 9, 4 + 2 * n + 9);
+                if !ok {
+                    report.violation(Violation { sig: "far-non-word-not-reported-at-every-occurrence".into(), case: json!({"engine":"E1","text": text, "word": w, "lint_call_on_this_linter": round + 1}), detail: json!({"first_occurrence_lints": a.len(), "second_occurrence_lints": b.len()}) });
+                }
+            }
+        }
+    }
+
     // ------------------------------------------------------------------ the product-shaped dictionary
     // curated + user words in a MergedDictionary (as harper-ls, harper-cli and harper.js build it).
     // User words: the lower-cased form of curated entries that are listed only with capitals
